@@ -284,6 +284,14 @@ func (g *appGen) genPre(node string, loaded map[string]bool, first bool) (code [
 				sym = pickS(t, poolSyms, "sym")
 			}
 			size := g.sizes[sym]
+			if !sink && g.o.Sinks && g.chance(6, "sizedsink") {
+				// a symbol that is the sink of another node, loaded here with a size of its own
+				sym = pickS(t, poolSinks, "sizedsinksym")
+				size = uint32(rapid.SampledFrom([]int{255, 120, 60}).Draw(t, "sizedsinksize"))
+				if g.sizes[sym] == 0 && loaded[sym] {
+					size = 0
+				}
+			}
 			if !sink && g.o.Sloppy && g.chance(10, "othersize") {
 				size = uint32(rapid.SampledFrom([]int{1, 5, 10, 40, 65535}).Draw(t, "size"))
 			}
@@ -473,6 +481,25 @@ func (g *appGen) genPost(node string, loaded map[string]bool, hasSink, browse bo
 		code = append(code, app.Instr{Op: refdec.INCMP, Sym: ">", Sel: "11"}, app.Instr{Op: refdec.INCMP, Sym: "<", Sel: "22"})
 	}
 	for i := 0; i < n; i++ {
+		if i > 0 && g.chance(10, "midload") {
+			// an external call between two comparison lines: it runs whether or not an earlier
+			// line has matched already, and what it sets (language, flags) must not re-open
+			// the comparison
+			ls := sortedKeys(loaded)
+			switch {
+			case g.o.Langs && g.chance(50, "midlang"):
+				if loaded["lang"] && g.chance(60, "midlangreload") {
+					code = append(code, app.Instr{Op: refdec.RELOAD, Sym: "lang"})
+				} else {
+					code = append(code, app.Instr{Op: refdec.LOAD, Sym: "lang", Num: 0})
+				}
+			case len(ls) > 0 && g.chance(50, "midreload"):
+				code = append(code, app.Instr{Op: refdec.RELOAD, Sym: refdec.BS(pickS(t, ls, "midreloadsym"))})
+			default:
+				sym := pickS(t, poolSyms, "midsym")
+				code = append(code, app.Instr{Op: refdec.LOAD, Sym: refdec.BS(sym), Num: g.sizes[sym]})
+			}
+		}
 		sel := pickS(t, poolSels, "incmpsel")
 		if g.o.FewSelectors {
 			sel = []string{"0", "a", "A"}[g.draw(3, "incmpselfew")]
@@ -670,6 +697,8 @@ func GenApp(t *rapid.T, o GenOpts) *app.App {
 	if o.ResetEmpty && g.chance(30, "resetempty") {
 		a.Cfg.ResetOnEmptyInput = true
 	}
+	// the library's state dump after every request: an observer, nothing may depend on it
+	a.Cfg.Debugger = g.chance(10, "debugger")
 	// names
 	nn := rapid.IntRange(1, o.MaxNodes).Draw(t, "nnodes")
 	g.names = []string{a.RootName()}
@@ -933,7 +962,7 @@ func GenHistory(t *rapid.T, a *app.App, o HistOpts) []string {
 		case k < 19 && o.Refused:
 			s := rapid.SampledFrom(refusedInputs).Draw(t, "refused")
 			if s == "" {
-				return strings.Repeat("9", rapid.SampledFrom([]int{256, 257, 300, 400}).Draw(t, "toolong"))
+				return strings.Repeat("9", []int{256, 257, 300, 400, 256, 300, 65536, 65600}[uniformN(t, 8, "toolong")])
 			}
 			return s
 		case o.Long:
